@@ -22,7 +22,7 @@ FUNCS = ["protocol.Context.shutdown", "TokenManager.shutdown/request/dispatch_er
 SCEN = [("con_wait_ack",), ("acked_wait_sep",), ("blockwise_upload",), ("client_obs",), ("server_slow",), ("server_observer",),
         ("backlog",), ("dedup",), ("con_wait_ack", "server_slow"), ("client_obs", "server_observer", "dedup"), ("non_wait",),
         ("client_obs_pending",), ("client_obs_pending_blockwise",), ("server_slow", "server_slow_rerequest"),
-        ("server_observer", "server_observer_rereg")]
+        ("server_observer", "server_observer_rereg"), ("client_obs_iter",), ("stalled_interface", "con_wait_ack")]
 
 
 def mk_shutdown(si, race):
@@ -123,6 +123,30 @@ def mk_shutdown(si, race):
                     errs = []
                     rq.observation.register_errback(errs.append, _suppress_deprecation=True)
                     observations.append(errs)
+                iter_tasks = []
+                req_it = None
+                if "client_obs_iter" in flags:
+                    # an established observation consumed with `async for`; a notification is read in the very loop iteration
+                    # in which shutdown starts (delivered below, right before the shutdown call)
+                    rq, m = a_request("obs3", observe=0, remote=stack.R1)
+                    req_it = last_sent()
+                    A.deliver(Message(code=CONTENT, _mtype=ACK, _mid=req_it.mid, _token=req_it.token, observe=5, payload=b"v").encode(), stack.R1)
+                    assert rq.response.done()
+                    seen = []
+
+                    async def consume(obs=rq.observation):
+                        async for n in obs:
+                            seen.append(n.payload)
+                    iter_tasks.append(loop.create_task(consume()))
+                    loop.run_ready()
+                if "stalled_interface" in flags:
+                    class Stalled:
+                        async def shutdown(self):
+                            await asyncio.sleep(10 ** 7)
+
+                        async def fill_or_recognize_remote(self, message):
+                            return False
+                    A.ctx.request_interfaces.append(Stalled())
                 if "client_obs_pending" in flags or "client_obs_pending_blockwise" in flags:
                     # an observation whose first response has not arrived yet
                     rq, m = a_request("obs2", observe=0, remote=stack.R1, blockwise="client_obs_pending_blockwise" in flags)
@@ -159,9 +183,18 @@ def mk_shutdown(si, race):
 
                 loop.advance_to(t_shutdown)
                 t = loop.create_task(A.ctx.shutdown())
+                def notify_iter():
+                    if "client_obs_iter" in flags and not A.tr.closed:
+                        # (a closed transport delivers nothing any more)
+                        # a notification arrives after shutdown() was called: before its first step, or (race form) k steps into it
+                        A.mint.datagram_msg_received(Message(code=CONTENT, _mtype=NON, _mid=9000, _token=req_it.token, observe=6, payload=b"w").encode(),
+                                                     [(__import__("socket").IPPROTO_IPV6, __import__("socket").IPV6_PKTINFO, stack.pktinfo(False))], 0, stack.R1)
                 late_during = None
+                if not race:
+                    notify_iter()
                 if race:
                     loop.run_steps(pick(list(range(7)), k))
+                    notify_iter()
                     ml = Message(code=GET, uri_path=["late"], _mtype=NON)
                     ml.remote = A.remote(peer)
                     late_during = A.ctx.request(ml, handle_blockwise=False).response
@@ -173,6 +206,8 @@ def mk_shutdown(si, race):
                     assert f.done() and isinstance(f.exception(), error.Error), "outstanding request must end with a library error"
                 for errs in observations:
                     assert len(errs) == 1 and isinstance(errs[0], error.Error), "observation must end with a library error"
+                for tk in iter_tasks:
+                    assert tk.done() and isinstance(tk.exception(), error.Error), "`async for` consumer of an observation must end with a library error"
                 if late_during is not None:
                     assert late_during.done() and isinstance(late_during.exception(), error.Error)
                 if "server_slow" in flags and t_shutdown < 5000:
@@ -215,7 +250,7 @@ def obligations(tier):
         obs.append(Obligation("shutdown-%s" % "+".join(SCEN[si]), mk_shutdown(si, False), 280 if q else 1200, functions=FUNCS,
                               symbolic={"shutdown instant": "[0, 7000] ticks"}, concrete={"scenario": list(SCEN[si])},
                               stubs=["SimLoop", "2 x FakeDatagramTransport", "integer tuning", "SHUTDOWN_TIMEOUT = 3000 ticks"]))
-    for si in ([0, 4, 9] if q else range(len(SCEN))):
+    for si in ([0, 4, 9, SCEN.index(("client_obs_iter",))] if q else range(len(SCEN))):
         obs.append(Obligation("shutdown-race-%s" % "+".join(SCEN[si]), mk_shutdown(si, True), 280 if q else 1200, functions=FUNCS,
                               symbolic={"shutdown instant": "[0, 7000] ticks", "new request submitted after k loop steps of the shutdown": "index 0..6"},
                               concrete={"scenario": list(SCEN[si])}))
